@@ -41,13 +41,17 @@ META = {
                     "Jinvp oracle: rotation angle of X below pi (principal Log), Sim3: ||ad(Log X)|| < 0.9*2*pi (radius of "
                     "convergence of the documented Bernoulli series)"],
     "partial": ["rounding: theorems are over exact reals; agreement of the float code within 64·eps·scale (algebraic ops), "
-                "16·eps (rotation/scale blocks), 4·sqrt(eps)·scale (translation blocks, Jr) is measured",
-                "Sim3 Jinvp: the model/code is the 4-term Bernoulli truncation (sim3JlInv_bernoulli proved); the distance to the "
-                "true inverse Jacobian (2||ad||^6/30240/(1-(||ad||/2pi)^2)) is measured by the oracle, not proved",
-                "SE3 / Sim3 adjoint identity on the small-angle Taylor branches (0<theta<=eps resp. 0<|sigma|<=eps): proved with an "
-                "explicit residual (exact polynomial coefficients), not as an equality",
-                "Jinvp as a derivative of Log(Exp(tau)@X) (HasDerivAt form) is checked by finite differences only; the theorems "
-                "prove JlInv·Jl = 1 on the closed-form branch"],
+                "16·eps (rotation/scale blocks), 4·sqrt(eps)·scale (translation blocks, Jinvp, Jr) is measured",
+                "Sim3 Jinvp: the model/code is the 4-term Bernoulli truncation (sim3JlInv_poly / sim3JlInv_bernoulli proved); its distance "
+                "to the true inverse Jacobian (2||ad||^6/30240/(1-(||ad||/2pi)^2)) is measured by the mpmath oracle, not proved",
+                "adjoint identity on small-angle branches: SE3 with 0<theta<=eps proved with an explicit bounded residual "
+                "(SE3_Adj_identity_taylor_partial, se3_taylor_defect_bounds); Sim3 with 0<theta<=eps or 0<|sigma|<=eps only as an exact "
+                "residual formula (Sim3_Adj_residual_partial), its size is not bounded by a theorem; the matrix-level statements "
+                "(*_exp_Adj, with Mathlib's matrix exponential) hold for every input",
+                "Jinvp as the first-order change of Log(Exp(tau)@X): proved for so3 in the form 'so3_Jl is the left Jacobian of Exp' "
+                "(so3Jl_hasDerivAt) + JlInv·Jl = 1; for se3/rxso3/sim3 the block inverses are proved, the derivative form is checked by "
+                "finite differences on the real code only",
+                "Jr derivative form proved for eps<theta and at x=0; on 0<theta<=eps the code returns the identity (first-order accurate)"],
 }
 
 K_ALG = 64.0
@@ -834,14 +838,16 @@ def jinvp_oracle_case(ctx: Ctx, case, got=None) -> bool:
         th = item["theta_log"]
         pn = n2(pv)
         if dtype == "float64" and case.get("fd") and 0 < pn and th < 2.8:
-            h = 1e-6 / max(1.0, pn)
+            # step: balances the O(h²) truncation against the 4·sqrt(eps) translation allowance of Log divided by h
+            h = 2e-3 / max(1.0, pn)
             hp = P.LieTensor(h * p.tensor(), ltype=algT)
             hm = P.LieTensor(-h * p.tensor(), ltype=algT)
             fd = ((hp.Exp() @ X).Log().tensor() - (hm.Exp() @ X).Log().tensor()) / (2 * h)
             xin = max(1.0, max(abs(v) for v in xi))
             scale = max(1.0, max(abs(v) for v in got))
-            tol = 1e-5 * scale * xin + trunc
+            tol = 3e-4 * scale * xin + trunc
             err = float((fd.double() - torch.tensor(got)).abs().max())
+            ctx.hist["jinvp.fd.max_err_over_tol_percent"] = max(ctx.hist.get("jinvp.fd.max_err_over_tol_percent", 0), int(100 * err / tol))
             if err > tol:
                 ctx.fail(c2, f"jinvp-fd: {name}.Jinvp is not the first-order change of Log(Exp(tau)@X) in direction p: {err:.3e} > {tol:.3e}")
     except Exception as ex:
